@@ -7,6 +7,22 @@ use noodles_core::{Position, region::Interval};
 
 use crate::fai;
 
+/// Model of `memchr::memchr` used under cfg(kani) by the line scanners of this crate (hook
+/// "memchr shim"): the documented contract -- index of the FIRST occurrence of `needle`, None if absent --
+/// as a plain loop.  The real crate dispatches to SSE2/AVX2 kernels through inline asm and 128-bit vector
+/// intrinsics, which do not fit CBMC under symbolic bytes (DESIGN R15); Kani does not apply a
+/// `#[kani::stub]` to that call site, hence the source-level shim.  Part of the trusted base.
+pub(crate) fn memchr_model(needle: u8, haystack: &[u8]) -> Option<usize> {
+    let mut i = 0;
+    while i < haystack.len() {
+        if haystack[i] == needle {
+            return Some(i);
+        }
+        i += 1;
+    }
+    None
+}
+
 fn q(rec: &fai::Record, start1: usize) -> u64 {
     let iv: Interval = (Position::new(start1).unwrap()..).into();
     rec.query(iv).unwrap()
